@@ -201,8 +201,51 @@ def _ancestors(classes, name, depth=0):
     return res
 
 
+def step_save_shape(repo: str) -> dict:
+    """`Step.save` / `Token.save` (streamflow/core/workflow.py): are the dependency rows written on EVERY save (outside the
+    `if self.persistent_id is None` branch)?  does a second concurrent `Token.save` wait for the first one?"""
+    path = os.path.join(repo, "streamflow/core/workflow.py")
+    tree = ast.parse(open(path).read(), filename=path)
+
+    def method(cls, name):
+        for n in tree.body:
+            if isinstance(n, ast.ClassDef) and n.name == cls:
+                for m in n.body:
+                    if isinstance(m, ast.AsyncFunctionDef) and m.name == name:
+                        return m
+        raise TranslateError(f"{cls}.{name} not found")
+
+    save = method("Step", "save")
+    guarded = []
+
+    def walk(node, under_first_insert):
+        for ch in ast.iter_child_nodes(node):
+            u = under_first_insert
+            if isinstance(ch, ast.If) and "persistent_id is None" in ast.unparse(ch.test):
+                for b in ch.body:
+                    walk_stmt(b, True)
+                for b in ch.orelse:
+                    walk_stmt(b, u)
+                continue
+            walk_stmt(ch, u)
+
+    def walk_stmt(node, u):
+        if isinstance(node, ast.Call) and isinstance(node.func, ast.Attribute) and node.func.attr == "add_dependency":
+            guarded.append(u)
+        walk(node, u)
+
+    walk(save, False)
+    if not guarded:
+        raise TranslateError("Step.save: no add_dependency call found")
+    tsave = method("Token", "save")
+    src = ast.unparse(tsave)
+    waits = "_saving.wait()" in src and "self._saving is not None" in src
+    return {"deps_always": not any(guarded), "token_save_waits": waits}
+
+
 def generate(repo: str) -> tuple[str, str]:
     recs = extract(repo)
+    shape = step_save_shape(repo)
 
     def ls(xs):
         return "[" + ", ".join(f'"{x}"' for x in xs) + "]"
@@ -222,6 +265,11 @@ open SFV.Persist
 
 def persistClasses : List PClass :=
   [{rows}]
+
+/-- `Step.save`: the `add_dependency` rows are written on every save, not only when the step row is first inserted -/
+def stepSaveDepsAlways : Bool := {b(shape["deps_always"])}
+/-- `Token.save`: a save that finds another save of the same instance in progress waits for it (`await self._saving.wait()`) -/
+def tokenSaveWaits : Bool := {b(shape["token_save_waits"])}
 
 end SFV.Gen
 """
